@@ -1,5 +1,6 @@
 (* Refine/PSRefine.v — the PauliString methods that tools/py2coq.py generates from src/paulie/common/pauli_string_bitarray.py
-   (__len__, __eq__, sign, complex_conj, commutes_with, multiply, adjoint_map, |, ^, @, is_identity), run on the object
+   (__len__, __eq__, sign, complex_conj, commutes_with, multiply, adjoint_map, |, ^, @, is_identity, get_index,
+   get_diagonal_index, tensor and the in-place edits set_substring and inc), run on the object
    freshly built from a Pauli string, are equal to the code-shaped model in Model/Pauli.v that C04's theorems are about. *)
 From PauLie Require Import Pauli PauliBits MatrixT.
 From PauLieRefine Require Import PySem.
@@ -109,10 +110,185 @@ Proof.
     replace (2 * S n)%nat with (S (S (2 * n))) by lia. cbn [repeat identity bits flat_map app xb zb]. f_equal. f_equal. exact IH.
 Qed.
 
+(* ---------- indices ---------- *)
+Lemma py_index_nat len k : (k < len)%nat -> py_index len (Z.of_nat k) = Some k.
+Proof.
+  intros H. unfold py_index. assert (E1 : (Z.of_nat k <? 0) = false) by lia. rewrite E1.
+  assert (E2 : ((0 <=? Z.of_nat k) && (Z.of_nat k <? Z.of_nat len)) = true) by lia. rewrite E2, Nat2Z.id. reflexivity.
+Qed.
+Lemma idx_ok_nat {A} (l : list A) k : (k < length l)%nat -> idx_ok l (Z.of_nat k) = true.
+Proof. intros H. unfold idx_ok. rewrite (py_index_nat _ _ H). reflexivity. Qed.
+Lemma list_get_nat {A} (d : A) l k : (k < length l)%nat -> list_get d l (Z.of_nat k) = nth k l d.
+Proof. intros H. unfold list_get. rewrite (py_index_nat _ _ H). reflexivity. Qed.
+Lemma list_set_nat {A} (l : list A) k v : (k < length l)%nat -> list_set l (Z.of_nat k) v = set_nth l k v.
+Proof. intros H. unfold list_set. rewrite (py_index_nat _ _ H). reflexivity. Qed.
+Lemma set_nth_mid {A} (pre : list A) x suf v : set_nth (pre ++ x :: suf) (length pre) v = pre ++ v :: suf.
+Proof. induction pre as [|a pre IH]; cbn; [reflexivity|]. rewrite IH. reflexivity. Qed.
+Lemma set_nth_mid' {A} (pre : list A) x suf k v : length pre = k -> set_nth (pre ++ x :: suf) k v = pre ++ v :: suf.
+Proof. intros <-. apply set_nth_mid. Qed.
+Lemma set_nth_nat : forall l k v, set_nth l k v = set_nat l k v.
+Proof. induction l as [|a l IH]; intros [|k] v; cbn; try reflexivity. rewrite IH. reflexivity. Qed.
+
+Theorem gen_get_index o : py_PS_get_index o = get_index o.
+Proof. reflexivity. Qed.
+Theorem gen_get_diagonal_index o : py_PS_get_diagonal_index o = FRet (get_diagonal_index o).
+Proof. unfold py_PS_get_diagonal_index, get_diagonal_index. destruct (ba2int (oeven o) =? 0); reflexivity. Qed.
+
+(* ---------- inc ---------- *)
+Theorem gen_inc o : py_PS_inc o = (FRet (inc o), inc o).
+Proof.
+  unfold py_PS_inc. cbv zeta. match goal with |- context [fold_left ?f _ _] => set (F := f) end.
+  assert (Fb : forall l s, fold_left F l (Brk s) = Brk s).
+  { induction l as [|x l IHl]; intros s; [reflexivity|]. cbn [fold_left]. change (F (Brk s) x) with (@Brk (obj * Z) (fres obj * obj) s). apply IHl. }
+  assert (L : forall pre suf e d i0, exists i1,
+     unloop (fold_left F (rev (pyrange (Z.of_nat (length pre)))) (Next ({| obits := pre ++ suf; oeven := e; oodd := d |}, i0))) =
+     Next ({| obits := rev (inc_rev (rev pre)) ++ suf; oeven := e; oodd := d |}, i1)).
+  { clear - Fb. induction pre as [|x pre IH] using rev_ind; intros suf e d i0.
+    - exists i0. reflexivity.
+    - unfold pyrange. rewrite Nat2Z.id, app_length. cbn [length]. rewrite Nat.add_1_r, seq_S, map_app, rev_app_distr. cbn [map rev app fold_left plus].
+      rewrite <- app_assoc. cbn [app].
+      assert (Hlt : (length pre < length (pre ++ x :: suf))%nat) by (rewrite app_length; cbn; lia).
+      assert (S : F (Next ({| obits := pre ++ x :: suf; oeven := e; oodd := d |}, i0)) (Z.of_nat (length pre)) =
+        if x then Next ({| obits := pre ++ false :: suf; oeven := e; oodd := d |}, Z.of_nat (length pre))
+        else Brk ({| obits := pre ++ true :: suf; oeven := e; oodd := d |}, Z.of_nat (length pre))).
+      { subst F. cbv beta. cbn [seqo uncont obits]. rewrite (idx_ok_nat _ _ Hlt), (list_get_nat _ _ _ Hlt), nth_middle.
+        destruct x; cbn [negb seqo uncont obits]; unfold set_obits; cbn [obits oeven oodd];
+          rewrite ?(idx_ok_nat _ _ Hlt), (list_set_nat _ _ _ Hlt), set_nth_mid; reflexivity. }
+      rewrite S. clear S. rewrite rev_app_distr. cbn [rev app inc_rev]. destruct x.
+      + destruct (IH (false :: suf) e d (Z.of_nat (length pre))) as [i1 E]. exists i1.
+        unfold pyrange in E. rewrite Nat2Z.id in E. rewrite E. cbn [rev]. rewrite <- app_assoc. reflexivity.
+      + exists (Z.of_nat (length pre)). rewrite Fb. cbn [unloop rev]. rewrite rev_involutive, <- app_assoc. reflexivity. }
+  destruct o as [b e d]. cbn [obits]. destruct (L b [] e d 0) as [i1 E]. rewrite app_nil_r in E. rewrite E. clear E.
+  cbn [seqo finishM]. unfold set_oeven, set_oodd, inc, fresh_bits, inc_bits. cbn [obits oeven oodd]. rewrite app_nil_r. reflexivity.
+Qed.
+
+(* ---------- tensor ---------- *)
+Lemma firstn_S_nth {A} (d : A) : forall l k, (k < length l)%nat -> firstn (S k) l = firstn k l ++ [nth k l d].
+Proof. induction l as [|a l IH]; intros [|k] H; cbn in *; try lia; [reflexivity|]. rewrite (IH k) by lia. reflexivity. Qed.
+Theorem gen_tensor o1 o2 : py_PS_tensor o1 o2 = FRet (fresh_bits (obits o1 ++ obits o2)).
+Proof.
+  unfold py_PS_tensor. cbv zeta. set (b1 := obits o1). set (b2 := obits o2). set (c := b1 ++ b2).
+  assert (Hn : Z.to_nat (Z.of_nat (length b1) + Z.of_nat (length b2)) = length c) by (unfold c; rewrite app_length; lia).
+  rewrite Hn, repeat_length. match goal with |- context [fold_left ?f _ _] => set (F := f) end.
+  assert (L : forall m k i0 s0 j0, (k + m = length c)%nat -> exists i1 s1 j1,
+     fold_left F (map Z.of_nat (seq k m)) (Next (firstn k c ++ repeat false (length c - k), i0, s0, j0)) =
+     Next (firstn (k + m) c ++ repeat false (length c - k - m), i1, s1, j1)).
+  { induction m as [|m IH]; intros k i0 s0 j0 Hk.
+    - exists i0, s0, j0. cbn. rewrite Nat.add_0_r, Nat.sub_0_r. reflexivity.
+    - cbn [seq map fold_left].
+      assert (Hlen : length (firstn k c ++ repeat false (length c - k)) = length c) by (rewrite app_length, firstn_length, repeat_length; lia).
+      assert (St : exists s1 j1, F (Next (firstn k c ++ repeat false (length c - k), i0, s0, j0)) (Z.of_nat k) =
+                  Next (firstn (S k) c ++ repeat false (length c - S k), Z.of_nat k, s1, j1)).
+      { subst F. cbv beta. cbn [seqo uncont].
+        assert (Hget : forall (P : list bool -> Z -> Prop), 
+           (P b1 (Z.of_nat k) -> (k < length b1)%nat -> True) -> True) by auto. clear Hget.
+        destruct (Z.of_nat k <? Z.of_nat (length b1)) eqn:Eb.
+        - assert (Hk1 : (k < length b1)%nat) by lia.
+          rewrite (idx_ok_nat b1 k Hk1), (list_get_nat false b1 k Hk1).
+          rewrite (idx_ok_nat _ k) by (rewrite Hlen; lia). rewrite (list_set_nat _ k) by (rewrite Hlen; lia).
+          exists b1, (Z.of_nat k). do 3 f_equal.
+          replace (length c - k)%nat with (S (length c - S k)) by lia. cbn [repeat].
+          assert (Hf : length (firstn k c) = k) by (rewrite firstn_length; lia). rewrite (set_nth_mid' _ _ _ k _ Hf).
+          rewrite (firstn_S_nth false c k) by lia. rewrite <- app_assoc. cbn [app]. do 2 f_equal. unfold c. rewrite app_nth1 by lia. reflexivity.
+        - assert (Hk1 : (length b1 <= k)%nat) by lia.
+          replace (Z.of_nat k - Z.of_nat (length b1)) with (Z.of_nat (k - length b1)) by lia.
+          assert (Hk2 : (k - length b1 < length b2)%nat) by (unfold c in Hk; rewrite app_length in Hk; lia).
+          rewrite (idx_ok_nat b2 _ Hk2), (list_get_nat false b2 _ Hk2).
+          rewrite (idx_ok_nat _ k) by (rewrite Hlen; lia). rewrite (list_set_nat _ k) by (rewrite Hlen; lia).
+          exists b2, (Z.of_nat (k - length b1)). do 3 f_equal.
+          replace (length c - k)%nat with (S (length c - S k)) by lia. cbn [repeat].
+          assert (Hf : length (firstn k c) = k) by (rewrite firstn_length; lia). rewrite (set_nth_mid' _ _ _ k _ Hf).
+          rewrite (firstn_S_nth false c k) by lia. rewrite <- app_assoc. cbn [app]. do 2 f_equal. unfold c. rewrite app_nth2 by lia. reflexivity. }
+      destruct St as [s1 [j1 St]]. rewrite St. destruct (IH (S k) (Z.of_nat k) s1 j1 ltac:(lia)) as [i2 [s2 [j2 E]]].
+      exists i2, s2, j2. rewrite E. replace (S k + m)%nat with (k + S m)%nat by lia. replace (length c - S k - m)%nat with (length c - k - S m)%nat by lia. reflexivity. }
+  unfold pyrange. rewrite Nat2Z.id. destruct (L (length c) 0%nat 0 [] 0 eq_refl) as [i1 [s1 [j1 E]]].
+  change (0 + length c)%nat with (length c) in E. cbn [firstn app] in E. rewrite !Nat.sub_0_r in E. rewrite E. cbn [unloop seqo finish]. rewrite firstn_all, Nat.sub_diag. cbn [repeat]. rewrite app_nil_r. reflexivity.
+Qed.
+(* on objects built from strings: the tensor product is concatenation *)
+Theorem gen_tensor_text p q : fmap text (py_PS_tensor (fresh p) (fresh q)) = FRet (p ++ q).
+Proof.
+  rewrite gen_tensor. cbn [fmap]. f_equal. unfold text, fresh, fresh_bits. cbn [obits]. 
+  replace (bits p ++ bits q) with (bits (p ++ q)) by (unfold bits; apply flat_map_app). apply of_bits_bits.
+Qed.
+
+(* ---------- set_substring ---------- *)
+Lemma set_idx_spec l j v : set_idx l j v = if idx_ok l j then Some (list_set l j v) else None.
+Proof.
+  unfold set_idx, idx_ok, list_set. change (PauliBits.py_index (length l) j) with (PySem.py_index (length l) j).
+  destruct (PySem.py_index (length l) j); [rewrite set_nth_nat|]; reflexivity.
+Qed.
+Lemma nth_bits_x : forall p k, (k < length p)%nat -> nth (2 * k) (bits p) false = xb (nth k p PI).
+Proof.
+  induction p as [|a p IH]; intros k H; [cbn in H; lia|]. destruct k as [|k]; [reflexivity|].
+  replace (2 * S k)%nat with (S (S (2 * k))) by lia. change (bits (a :: p)) with (xb a :: zb a :: bits p). cbn [nth]. apply IH. cbn in H. lia.
+Qed.
+Lemma nth_bits_z : forall p k, (k < length p)%nat -> nth (2 * k + 1) (bits p) false = zb (nth k p PI).
+Proof.
+  induction p as [|a p IH]; intros k H; [cbn in H; lia|]. destruct k as [|k]; [reflexivity|].
+  replace (2 * S k + 1)%nat with (S (S (2 * k + 1))) by lia. change (bits (a :: p)) with (xb a :: zb a :: bits p). cbn [nth]. apply IH. cbn in H. lia.
+Qed.
+
+Theorem gen_set_substring o start sub : py_PS_set_substring o start (fresh sub) =
+  (if snd (set_substring o start sub) then FNone else FRaised EIndex, fst (set_substring o start sub)).
+Proof.
+  unfold py_PS_set_substring. cbv zeta. rewrite gen_len. match goal with |- context [fold_left ?f _ _] => set (F := f) end.
+  assert (Fr : forall l r, fold_left F l (Ret r) = Ret r).
+  { induction l as [|x l IHl]; intros r; [reflexivity|]. cbn [fold_left]. change (F (Ret r) x) with (@Ret (obj * obj * Z) (fres obj * obj) r). apply IHl. }
+  assert (St : forall k o i0, (k < length sub)%nat ->
+     F (Next (o, fresh sub, i0)) (Z.of_nat k) =
+     let (o', ok) := set_letter o (start + Z.of_nat k) (xb (nth k sub PI)) (zb (nth k sub PI)) in
+     if ok then Next (o', fresh sub, Z.of_nat k) else Ret (FRaised EIndex, o')).
+  { clear Fr. intros k o1 i0 Hk. subst F. cbv beta. cbn [seqo uncont].
+    assert (Lb := bits_length sub). assert (Le : length (evens (bits sub)) = length sub) by (rewrite evens_bits; apply map_length).
+    assert (Lo : length (odds (bits sub)) = length sub) by (rewrite odds_bits; apply map_length).
+    change (obits (fresh sub)) with (bits sub). change (oeven (fresh sub)) with (evens (bits sub)). change (oodd (fresh sub)) with (odds (bits sub)).
+    replace (2 * Z.of_nat k) with (Z.of_nat (2 * k)) by lia. replace (Z.of_nat (2 * k) + 1) with (Z.of_nat (2 * k + 1)) by lia.
+    rewrite (idx_ok_nat (bits sub) (2 * k)) by lia. rewrite (idx_ok_nat (bits sub) (2 * k + 1)) by lia.
+    rewrite (idx_ok_nat (evens (bits sub)) k) by lia. rewrite (idx_ok_nat (odds (bits sub)) k) by lia.
+    rewrite (list_get_nat false (bits sub) (2 * k)) by lia. rewrite (list_get_nat false (bits sub) (2 * k + 1)) by lia.
+    rewrite (list_get_nat false (evens (bits sub)) k) by lia. rewrite (list_get_nat false (odds (bits sub)) k) by lia.
+    rewrite (nth_bits_x sub k Hk), (nth_bits_z sub k Hk). rewrite evens_bits, odds_bits.
+    assert (Hx : nth k (map xb sub) false = xb (nth k sub PI)) by exact (map_nth xb sub PI k).
+    assert (Hz : nth k (map zb sub) false = zb (nth k sub PI)) by exact (map_nth zb sub PI k). rewrite Hx, Hz. clear Hx Hz.
+    set (x := xb (nth k sub PI)). set (z := zb (nth k sub PI)).
+    unfold set_letter. rewrite !set_idx_spec.
+    replace (2 * start + Z.of_nat (2 * k)) with (2 * (start + Z.of_nat k)) by lia.
+    unfold set_obits, set_oeven, set_oodd. cbn [obits oeven oodd].
+    repeat (match goal with |- context [idx_ok ?l ?j] => destruct (idx_ok l j) end; cbn [obits oeven oodd uncont]; rewrite ?set_idx_spec; try reflexivity). }
+  assert (L : forall m k o i0, (k + m = length sub)%nat -> exists i1,
+     fold_left F (map Z.of_nat (seq k m)) (Next (o, fresh sub, i0)) =
+     let (o', ok) := set_substring o (start + Z.of_nat k) (skipn k sub) in
+     if ok then Next (o', fresh sub, i1) else Ret (FRaised EIndex, o')).
+  { induction m as [|m IH]; intros k o1 i0 Hk.
+    - exists i0. rewrite skipn_all2 by lia. reflexivity.
+    - cbn [seq map fold_left]. rewrite (St k o1 i0) by lia.
+      assert (Hs : skipn k sub = nth k sub PI :: skipn (S k) sub).
+      { clear - Hk. revert k Hk. induction sub as [|a sub IHs]; intros [|k] Hk; cbn in *; try lia; [reflexivity|]. apply IHs. lia. }
+      rewrite Hs. cbn [set_substring].
+      destruct (set_letter o1 (start + Z.of_nat k) (xb (nth k sub PI)) (zb (nth k sub PI))) as [o2 ok].
+      destruct ok.
+      + destruct (IH (S k) o2 (Z.of_nat k) ltac:(lia)) as [i1 E]. exists i1. rewrite E.
+        replace (start + Z.of_nat (S k)) with (start + Z.of_nat k + 1) by lia. reflexivity.
+      + exists i0. rewrite Fr. reflexivity. }
+  unfold pyrange. rewrite Nat2Z.id. destruct (L (length sub) 0%nat o 0 eq_refl) as [i1 E]. rewrite E. clear E.
+  cbn [skipn]. replace (start + Z.of_nat 0) with start by lia.
+  destruct (set_substring o start sub) as [o' ok]. destruct ok; reflexivity.
+Qed.
+
+(* the two in-place edits of the source are the model's apply_edit, so C18_views / C18_observations speak about the
+   objects these methods leave behind, partially executed set_substring included *)
+Theorem gen_apply_edit o e : apply_edit o e =
+  match e with SetSub s sub => snd (py_PS_set_substring o s (fresh sub)) | Inc => snd (py_PS_inc o) end.
+Proof. destruct e as [s sub|]; [rewrite gen_set_substring|rewrite gen_inc]; reflexivity. Qed.
+
 (* non-vacuity: the translated methods run *)
 Example gen_ps_runs : py_PS_sign (fresh [PX; PI]) (fresh [PY; PZ]) = FRet (0, 1) /\ py_PS_commutes_with (fresh [PX; PI]) (fresh [PY; PZ]) = FRet false /\
   fmap text (py_PS_xor (fresh [PX; PI]) (fresh [PY; PZ])) = FRet [PZ; PZ] /\ py_PS_xor (fresh [PX; PI]) (fresh [PX; PZ]) = FNone /\
   py_PS_sign (fresh [PX]) (fresh [PY; PZ]) = FRaised verr.
+Proof. repeat split; vm_compute; reflexivity. Qed.
+Example gen_edits_run : fmap text (fst (py_PS_inc (fresh [PX; PZ]))) = FRet [PX; PX] /\
+  (let r := py_PS_set_substring (fresh [PX; PZ; PI]) 2 (fresh [PY; PY]) in fst r = FRaised EIndex /\ obits (snd r) = bits [PX; PZ; PY]) /\
+  fmap text (py_PS_tensor (fresh [PX]) (fresh [PZ; PY])) = FRet [PX; PZ; PY] /\ py_PS_get_diagonal_index (fresh [PZ; PI]) = FRet 2.
 Proof. repeat split; vm_compute; reflexivity. Qed.
 
 Print Assumptions gen_len.
@@ -126,4 +302,12 @@ Print Assumptions gen_xor.
 Print Assumptions gen_conj.
 Print Assumptions gen_eq.
 Print Assumptions gen_is_identity.
+Print Assumptions gen_get_index.
+Print Assumptions gen_get_diagonal_index.
+Print Assumptions gen_inc.
+Print Assumptions gen_tensor.
+Print Assumptions gen_tensor_text.
+Print Assumptions gen_set_substring.
+Print Assumptions gen_apply_edit.
 Print Assumptions gen_ps_runs.
+Print Assumptions gen_edits_run.
